@@ -14,8 +14,11 @@ import time
 VERIF = "/verif"
 REPO = "/repo"
 BIN = os.path.join(VERIF, "target/release/garden-verif")
-OUT = os.path.join(VERIF, "out")
-EVIDENCE = os.path.join(VERIF, "evidence")
+# Background sweeps (vp run) set VERIF_SCRATCH so that they do not overwrite the
+# evidence and replay files of the registered checks.
+_SCRATCH = os.environ.get("VERIF_SCRATCH")
+OUT = os.path.join(os.path.abspath(_SCRATCH), "out") if _SCRATCH else os.path.join(VERIF, "out")
+EVIDENCE = os.path.join(os.path.abspath(_SCRATCH), "evidence") if _SCRATCH else os.path.join(VERIF, "evidence")
 KNOWN_FINDINGS = os.path.join(VERIF, "known_findings.txt")
 
 MASK = (1 << 64) - 1
